@@ -94,7 +94,7 @@ def _all_nodes_cached(date: str, data_cols: tuple):
     return all_nodes(date, list(data_cols))
 
 
-def all_nodes(date, data_cols, functions=None, extra_targets=()):
+def all_nodes(date, data_cols, functions=None, extra_targets=(), group_specs=None, pid_specs=None):
     """Every node computable from `data_cols`: (ordered list, table dict name->args).
 
     The set is obtained from the implementation's own function table; a node is kept when all
@@ -103,7 +103,7 @@ def all_nodes(date, data_cols, functions=None, extra_targets=()):
     import networkx as nx
 
     dt = default_targets()
-    fno, fo = function_table(date, data_cols, list(dt) + list(extra_targets), functions)
+    fno, fo = function_table(date, data_cols, list(dt) + list(extra_targets), functions, group_specs, pid_specs)
     args = {n: [a for a in arg_names(f) if not a.endswith("_params")] for n, f in fno.items()}
     g = nx.DiGraph()
     for n, a in args.items():
